@@ -366,7 +366,7 @@ func init() {
 			"oracle = independent evaluator (math/big, bytes.Compare, time.Before) plus trichotomy/complement/<= laws; a leaf case is non-trivial when the two values differ or one is nil, a tree when it has at least one operator node",
 		Assumptions: []string{"well-typed filters only: the filter value has the Go type of the attribute (pointer, possibly typed nil, for nullable kinds)", "ordering of to-one IDs is not judged (statement silent)"},
 		Harnesses: []Harness{
-			{Name: "C10/leaf", Body: c10Leaf},
+			{Name: "C10/leaf", Body: c10Leaf, ShardDepth: 1},
 			{Name: "C10/rel", Body: c10Rel},
 			{Name: "C10/tree", Body: c10Tree},
 		},
